@@ -34,10 +34,12 @@ func IsSafeTrustedResourceURLPrefix(prefix string) bool {
 	return safeTrustedResourceURLPrefixPattern.MatchString(prefix)
 }
 
-var safeTrustedResourceURLPrefixPattern = regexp.MustCompile(`(?i)^(?:` +
-	`(?:https:)?//[0-9a-z.:\[\]-]+/|` +
+// The pattern spells out both letter cases instead of using the i flag, which would also
+// match non-ASCII characters that fold to ASCII letters (U+017F for 's', U+212A for 'k').
+var safeTrustedResourceURLPrefixPattern = regexp.MustCompile(`^(?:` +
+	`(?:[hH][tT][tT][pP][sS]:)?//[0-9a-zA-Z.:\[\]-]+/|` +
 	`/[^/\\]|` +
-	`about:blank#)`)
+	`[aA][bB][oO][uU][tT]:[bB][lL][aA][nN][kK]#)`)
 
 // URLContainsDoubleDotSegment returns whether the given URL or URL substring
 // contains the double dot-segment ".." (RFC3986 3.3) in its percent-encoded or
